@@ -5,17 +5,19 @@
    Nothing here reads a private attribute.  What the harness supplies per execution:
 
    cfg.items   ground truth about the byte stream the peer sent, in order:
-               [k, id, start, hend, end, term]   k in "req" | "bad" | "junk" | "poisonP" | "poisonF"
+               [k, id, start, hend, end, term, sp]   sp = "" | "upgrade" | "connect";  k in "req" | "bad" | "junk" | "poisonP" | "poisonF"
                start/hend/end = byte offsets (head end, item end); id = position (also sent as X-Id);
                term = nothing after this item has to be answered (Connection: close, HTTP/1.0
                without keep-alive, CONNECT, malformed / hostile member)
    cfg.qlim    the byte offset up to which the stream is a clean pipeline of plain requests
                (queue clauses are stated on that prefix only)
+   cfg.alim    the byte offset up to which the segmentation was aligned with the items (see Entries)
    cfg.cap     MAX_MSG_QUEUE_SIZE of the connection;  cfg.slack = 1 when tasks start lazily
    cfg.resps   the bytes written by the server split by an independent minimal response framer:
                [start, hend, end, complete, status, minor, sl, cl, te, close, id, fr, chunks,
-                bodylen, garbage, att]    id = echoed X-Id (0 = none), att = id of the handler
-               entered last when the first byte was written (0 = none / error entry)
+                bodylen, garbage, att, dat]    id = echoed X-Id (0 = none), att = id of the handler
+               entered last when the first byte was written (0 = none / error entry), dat = bytes
+               handed to data_received by then
    cfg.escs    loop exception-handler calls: [at, msg, exc, dr]
    event.o     after every stimulus / loop handle:  w (bytes written), d (bytes handed to
                data_received), closed (transport closing), lost, paused (transport reading
@@ -32,7 +34,10 @@
      BadGets4xxAndClose                                     unparsable input: 4xx, then closed, nothing else
      NoOrphan                                               open + idle + next request fully delivered + no handler
      NoEscape                                               loop exception handler called / exception left data_received
-     QueueBound Backpressure PausedNobodyHome               bounded queue; pause is applied and never stranded
+     QueueBound Backpressure PausedNobodyHome               bounded queue (requests AND 400 placeholders); pause is
+                                                            applied and never stranded
+     RunawayExecution                                       the server exceeded the harness budget (bytes written,
+                                                            handler entries, loop steps): e.g. answers in a loop
      ResponseTruncatedOpen
    Named deviations (own clause names so that a known finding matches nothing else):
      NoEscape_PoisonTarget     exception out of data_received while a request whose target makes
@@ -40,6 +45,9 @@
      NoOrphan_PoisonTarget     request accepted by the parser whose URL makes BaseRequest()
                                raise inside start(): never answered, connection left open
      StartCrash_PoisonTarget   the same, seen as "Task exception was never retrieved"
+     NoOrphan_UpgradeBodyAfterResponse   an upgrade request with a body was answered (declined) before its body
+                               was complete; the deferred upgrade takes effect afterwards and is never undone:
+                               later requests are buffered, never answered
      CloseDelimitedKeptOpen    a close-delimited response was written and the connection stays open
                                (C02's subject: HTTP/1.0 keep-alive + unsized StreamResponse; the C05
                                drivers do not generate it)                                         *)
@@ -133,7 +141,19 @@ HeadsIn(items, d, qlim, i) ==   \* request heads completely handed to data_recei
     IF i > Len(items) \/ items[i].hend > d \/ items[i].hend > qlim THEN 0
     ELSE 1 + HeadsIn(items, d, qlim, i + 1)
 
-Unhandled(c, o) == LET h == HeadsIn(c.items, o.d, c.qlim, 1) IN IF h > o.hin THEN h - o.hin ELSE 0
+\* o.nh / o.ni are HeadsIn / ItemsIn evaluated by the harness (same definition; kept here as reference)
+Unhandled(c, o) == LET h == o.nh IN IF h > o.hin THEN h - o.hin ELSE 0
+
+\* aligned segmentation (every segment = whole items or a single piece; a malformed member is alone in
+\* its segment): every complete non-junk item handed to data_received is exactly one queue entry
+\* (a parsed request or the 400 placeholder of a malformed one) until start() takes it off the queue
+\* (o.pop = request objects built so far) - ALL entries count, not only well-formed requests
+RECURSIVE ItemsIn(_, _, _, _)
+ItemsIn(items, d, alim, i) ==
+    IF i > Len(items) \/ items[i].end > d \/ items[i].end > alim THEN 0
+    ELSE (IF items[i].k = "junk" THEN 0 ELSE 1) + ItemsIn(items, d, alim, i + 1)
+Entries(c, o) == LET h == o.ni
+                 IN IF h > o.pop THEN h - o.pop ELSE 0
 
 PoisonIn(items, k, lo, hi) == \E i \in 1..Len(items) : items[i].k = k /\ items[i].hend > lo /\ items[i].start < hi
 
@@ -151,20 +171,28 @@ Clause(p, e, c) ==
         lastId == LastIdFrom(R, lf)
         nx == NextItem(c.items, lastId + 1)
         quiet == o.idle /\ ~o.closed /\ o.hrun = 0 /\ ~o.wp
+        \* the last answered request is an upgrade request with a body whose response was started
+        \* before the body had been delivered completely (named deviation)
+        lateUp == lf > 0 /\ lastId > 0 /\ c.items[lastId].sp = "upgrade"
+                  /\ c.items[lastId].end > c.items[lastId].hend /\ R[lf].dat < c.items[lastId].end
         delivered == o.d > p.d
     IN
-    IF o.esc > p.esc THEN EscClause(c, p, o)
+    IF o.bud THEN "RunawayExecution"
+    ELSE IF o.esc > p.esc THEN EscClause(c, p, o)
     ELSE IF delivered /\ p.d < c.qlim /\ Unhandled(c, p) > c.cap - 1 + c.slack THEN "QueueBound"
     ELSE IF ~o.closed /\ o.d <= c.qlim /\ Unhandled(c, o) >= c.cap + c.slack /\ ~o.paused THEN "Backpressure"
+    ELSE IF delivered /\ p.d < c.alim /\ Entries(c, p) > c.cap - 1 THEN "QueueBound"
+    ELSE IF ~o.closed /\ o.d <= c.alim /\ Entries(c, o) >= c.cap /\ ~o.paused THEN "Backpressure"
     ELSE IF quiet /\ lf > 0 /\ R[lf].fr = "close" THEN "CloseDelimitedKeptOpen"
     ELSE IF quiet /\ errDone THEN "BadGets4xxAndClose"
     ELSE IF quiet /\ ~errDone /\ nx > 0 /\ ~TermBefore(c.items, nx) /\ c.items[nx].end <= o.d THEN
-         (CASE c.items[nx].k = "req" -> "NoOrphan"
+         (CASE lateUp -> "NoOrphan_UpgradeBodyAfterResponse"
+            [] c.items[nx].k = "req" -> "NoOrphan"
             [] c.items[nx].k = "bad" -> "BadGets4xxAndClose"
             [] c.items[nx].k = "poisonF" -> "NoOrphan_PoisonTarget"
             [] c.items[nx].k = "poisonP" -> "BadGets4xxAndClose_PoisonTarget"
             [] OTHER -> "NoOrphan")
-    ELSE IF quiet /\ o.paused THEN "PausedNobodyHome"
+    ELSE IF quiet /\ o.paused THEN (IF lateUp THEN "NoOrphan_UpgradeBodyAfterResponse" ELSE "PausedNobodyHome")
     ELSE IF quiet /\ o.w = c.wlen /\ Len(R) > 0 /\ ~R[Len(R)].complete /\ e.ev = "end" THEN "ResponseTruncatedOpen"
     ELSE ""
 
@@ -172,7 +200,7 @@ TInit ==
     /\ tid \in 1..NTraces
     /\ l = 0
     /\ prev = [w |-> 0, d |-> 0, closed |-> FALSE, lost |-> FALSE, paused |-> FALSE, idle |-> TRUE,
-               hrun |-> 0, hin |-> 0, esc |-> 0, wp |-> FALSE]
+               hrun |-> 0, hin |-> 0, hin0 |-> 0, esc |-> 0, wp |-> FALSE, bud |-> FALSE, pop |-> 0, nh |-> 0, ni |-> 0]
     /\ bad = WireClause(Cfg(tid))
     /\ Verdict(tid, 0, bad, <<>>)
 
